@@ -708,6 +708,13 @@ func Fixed() []*Spec {
 		Toks:  []Tok{named("ID", 0), lit('='), lit('*')},
 		Rules: rules("S: L '=' R | R", "L: '*' R | ID", "R: L"),
 		NTTag: allVal("S", "L", "R")})
+	// a goto target with two kernel items whose first item alone is the kernel of an earlier
+	// state (rules of the start symbol written last): a state looked up by a partial kernel
+	// merges the two contexts
+	add(&Spec{Name: "partial_kernel", Tags: []string{"lalr1"}, Start: "S",
+		Toks:  []Tok{lit('a'), lit('b'), litV('x'), lit('=')},
+		Rules: rules("R: L", "L: 'x'", "S: 'a' R | 'b' L '=' R | 'b' R"),
+		NTTag: allVal("S", "L", "R")})
 	add(&Spec{Name: "sep_ab", Tags: []string{"lalr1", "not-slr"},
 		Toks:  []Tok{lit('a'), lit('b'), lit('c'), lit('x'), lit('y')},
 		Rules: rules("S: 'a' A 'x' | 'a' B 'y' | 'b' A 'y'", "A: 'c'", "B: 'c'")})
@@ -835,6 +842,17 @@ func Fixed() []*Spec {
 	add(&Spec{Name: "dangling_else", Tags: []string{"conflict-sr"},
 		Toks:  []Tok{lit('i'), lit('e'), litV('x')},
 		Rules: rules("S: 'i' S | 'i' S 'e' S | 'x'"),
+		NTTag: allVal("S")})
+	// cycles in the `reads` relation (nullable B and C alternate on a loop of the automaton): LR(k)
+	// for no k, every conflict default-resolved; the strongly connected components of the first
+	// Digraph run share one slice, which the second run appends to (Horn checks and C10 only)
+	add(&Spec{Name: "reads_cycle_a", Tags: []string{"conflict-sr", "conflict-rr", "cells-only"},
+		Toks:  []Tok{lit('e'), lit('f'), lit('g'), litV('x'), lit('b'), lit('c')},
+		Rules: rules("S: L 'e'", "L: B C L | R 'f' | Q 'g' | 'x'", "R: B", "Q: B C", "B: | 'b'", "C: | 'c'"),
+		NTTag: allVal("S", "L")})
+	add(&Spec{Name: "reads_cycle_b", Tags: []string{"conflict-sr", "conflict-rr", "cells-only"},
+		Toks:  []Tok{lit('e'), lit('f'), lit('g'), lit('b'), lit('c'), lit('d')},
+		Rules: rules("S: L 'e'", "L: Y 'f' | Q 'g'", "Y: B D", "Q: B C M", "M: | L", "B: | 'b'", "C: | 'c'", "D: | 'd'"),
 		NTTag: allVal("S")})
 	add(&Spec{Name: "rr_first", Tags: []string{"conflict-rr"},
 		Toks:  []Tok{litV('x')},
